@@ -14,6 +14,7 @@ typedef struct {
 	long draws;              /* number of getentropy calls so far */
 	long fail_at;            /* draw index that fails (-1 = never); fail_from: every draw >= index fails */
 	long fail_from;
+	long ff_count;           /* with ff_at: that many consecutive draws are all-0xff (0 = one draw): a source stuck high for a while */
 	long ff_at;              /* draw index answered with all-0xff bytes (-1 = none): forces the redraw of any range-checked candidate */
 	size_t bytes; int failed;   /* number of failures delivered */
 	/* log of draws (first VENV_LOG calls): offset into logbuf + length */
@@ -27,6 +28,7 @@ void venv_script(const uint8_t *bytes, size_t len);
 void venv_fail_at(long idx);
 void venv_fail_from(long idx);
 void venv_ff_at(long idx);
+void venv_ff_window(long idx, long count);
 void venv_set_time(time_t t);
 time_t venv_get_time(void);
 extern __thread int venv_in_ref;
